@@ -382,6 +382,11 @@ func runFaultJob(c *Ctl, job *Job, idx int, res *RunResult) {
 			t.Dir = "/vs/taskdir"
 		}
 		t.Cond = c.Ch.Bool(2, 3, "cond")
+		if t.NCmd >= 2 && c.Ch.Bool(1, 4, "blank-command-entry") {
+			t.BlankAt = 1 + c.Ch.Choose(t.NCmd, "blank-at") // a no-op, also on the second and later use of the task
+		}
+		// the stages' outputs also meet in the terminal decorators (same task name on every line / in the cockpit)
+		w.Format = []string{"raw", "prefixed", "cockpit"}[c.Ch.Weighted([]int{2, 1, 1}, "format")]
 		t.NBefore = c.Ch.Choose(2, "nbefore")
 		t.NAfter = c.Ch.Choose(2, "nafter")
 		t.Allow = c.Ch.Bool(1, 4, "allow")
